@@ -377,6 +377,11 @@ FalseValue(st) == ValueMove(FirstKey(st), "plus")
 \* the claim about the last polynomial of the first group
 LastValueFalse(st) == LET gr == GroupsOfStmt(st)[1] IN ValueMove(<<gr.labels[Len(gr.labels)], gr.pt>>, "plus")
 
+ExtraRoundPlans(st) ==
+  IF S = "ipa" /\ st.kind \in {"open", "batch"}
+     /\ (\A j \in DOMAIN GroupsOfStmt(st)[1].labels : st.comms[GroupsOfStmt(st)[1].labels[j]].lbound = NONE)
+  THEN {Plan("forge_extra_round", "not_accept", <<ProofMut(1, "forge_extra_round", 0)>>)}
+  ELSE {}
 PlansC03(st) ==
   LET key == FirstKey(st) l1 == key[1] IN
   \* prover run on (q, state_q) against commitment(p); the claim is q's value
@@ -405,6 +410,9 @@ PlansC03(st) ==
   \cup (IF st.kind # "open"
         THEN {Plan("list", "not_accept", <<M(kd), FalseValue(st)>>) : kd \in {"list_empty", "list_trunc", "list_extend"}}
         ELSE {})
+  \* IPA: one round MORE, made by the prover over the key padded with identity elements for p + X^(d+1) b, shown
+  \* with the value (p + X^(d+1) b)(z): only the verifier's round-count guard stands between this and acceptance
+  \cup ExtraRoundPlans(st)
   \* PST13: the point shown with one more coordinate e and the witness list with one more element
   \* w = +-(xi delta / e) g  (xi = the public opening challenge): only the pairing of EVERY witness with its own
   \* beta_j h - z_j h (or the refusal of a list longer than the key) stands between this and acceptance
@@ -497,6 +505,7 @@ PlansC05(st) ==
         ELSE {})
   \cup CompensatePlans(st)
   \cup RepointPlans(st, {"plus"})
+  \cup ExtraRoundPlans(st)
 
 \* combinations with two distinct polynomials of non-zero coefficient, queried somewhere
 KeepSumCands(st) == {c \in (DOMAIN st.lcs) \X st.qs :
@@ -629,6 +638,9 @@ ApplyToStmt(st, m) ==
     [] m.kind = "vk_mut" -> [st EXCEPT !.vkmut = m.comp]
     [] m.kind = "proof_mut" /\ m.comp \in ForgeKinds \cup {"wlen_forged"} ->
          [st EXCEPT !.deltas[FirstKey(st)] = 1]
+    \* (the false value belongs to the first polynomial of the first group)
+    [] m.kind = "proof_mut" /\ m.comp = "forge_extra_round" ->
+         [st EXCEPT !.deltas[<<GroupsOfStmt(st)[1].labels[1], GroupsOfStmt(st)[1].pt>>] = 1]
     [] m.kind = "lc_coeff" ->
          LET j == LcByLabel(st.lcs, m.l) IN [st EXCEPT !.lcs[j].terms[m.k + 1][1] = @ + 1]
     [] m.kind = "lc_const" ->
